@@ -237,6 +237,27 @@ let cmd_linkedchk t =
   let pts = List.init nn (fun _ -> next_zlist t) in
   out_int (if linked_chk (nat_of_int n) (nat_of_int ls) (nat_of_int md) { lt_children = ch; lt_indices = pts } then 1 else 0)
 
+(* search n k nn scale inf rng[3] cands(len..) indptr(len..) indices(len..) dq[n] *)
+let cmd_search t =
+  let n = next_int t in let k = next_int t in let nn = next_int t in
+  let scale = next_z t in let inf = next_z t in
+  let rng = next_list t 3 in
+  let cands = next_zlist t in
+  let indptr = next_zlist t in
+  let indices = next_zlist t in
+  let dqa = Array.init n (fun _ -> next_z t) in
+  let dq = (fun v -> let v = int_of_nat v in if v < n then dqa.(v) else Z0) in
+  match search_one dq (nat_of_int n) indptr indices inf (nat_of_int k) (nat_of_int nn) scale cands rng with
+  | None -> out_str "EMPTY-SEED-OR-FUEL"
+  | Some ((ps, ids), rng') ->
+    out_list ps; out_sep (); out_list ids; out_sep (); out_list rng'; out_sep ();
+    (match deheap_sort_row ids ps with
+     | None -> out_str "FUEL"
+     | Some (i, d) -> out_list i; out_sep (); out_list d)
+
+(* fmul a b *)
+let cmd_fmul t = let a = next_z t in let b = next_z t in out_z (fmul32 a b)
+
 (*DISPATCH-BEGIN*)
 let dispatch : (string * (toks -> unit)) list = [
   ("heapseq", cmd_heapseq);
@@ -256,6 +277,8 @@ let dispatch : (string * (toks -> unit)) list = [
   ("eutree", cmd_eutree);
   ("flatchk", cmd_flatchk);
   ("linkedchk", cmd_linkedchk);
+  ("search", cmd_search);
+  ("fmul", cmd_fmul);
 ]
 (*DISPATCH-END*)
 
